@@ -94,6 +94,20 @@ def loads_in(tr, node, word):
     return out
 
 
+def observations_in(tr, node, word):
+    """calls inside the expression DAG of node that return (a function of) the word's value: load, and the
+    previous value returned by fetch_* / swap / compare_exchange"""
+    out = []
+    for x in tr.walk(node):
+        if x[0] == "call":
+            c = tr.call_of(x)
+            m = atomic_method(c)
+            if m == "load" or m in RMW or m in CAS or m in ("fetch_update", "try_update", "swap"):
+                if c.args and word in words_of(tr, c.g.b, c.args[0], c.loc):
+                    out.append(x)
+    return out
+
+
 def check_word(facts, tr, rep, rule, word, keyfn):
     """obligations for one atomic word; returns number of write sites"""
     n = 0
@@ -106,6 +120,17 @@ def check_word(facts, tr, rep, rule, word, keyfn):
         if m == "store":
             val = tr.expand(tr.operand(b, c.args[1], c.loc))
             lds = loads_in(tr, val, word)
+            # check-then-act: a store that happens only under a condition on an earlier observation of the word
+            from .util import dominating_edges
+            cta = []
+            for e in dominating_edges(tr, b, c.bb):
+                cta += observations_in(tr, e["node"], word)
+            if cta and not lds:
+                rep.ob(rule, key, False, c.where(),
+                       "lost update: %s.%s is overwritten by `store` under a condition computed from an earlier observation of the same "
+                       "word (%s); an update by another thread between the observation and the store is discarded"
+                       % (word[0].split("::")[-1], word[1], ", ".join(tr.call_of(l).where() for l in cta[:2])))
+                continue
             rep.ob(rule, key, not lds, c.where(),
                    "store to %s.%s of a value independent of the word's current value" % (word[0].split("::")[-1], word[1]) if not lds else
                    "lost update: %s.%s is written by `store` with a value computed from an earlier `load` of the same word (%s); "
